@@ -652,7 +652,80 @@ func corrC20Time(r *Run) *c20Time {
 		c.durParse(s, "field-wise", true)
 	}
 	c.receiverHistories(prod[0].s)
+	c.boundaryOffsets()
+	c.locations()
 	return c
+}
+
+// boundaryOffsets (audit C20-D2): every offset nn = 02..47, both signs, at year / month / day boundaries (alternating
+// midnight and the last tenth of the day) - on every run, as strict cases.
+func (c *c20Time) boundaryOffsets() {
+	dates := [][3]int{{0, 1, 1}, {99, 12, 31}, {0, 2, 29}, {99, 2, 28}, {0, 12, 31}, {1, 1, 1}}
+	for nn := 2; nn <= 47; nn++ {
+		for _, p := range []byte{'+', '-'} {
+			for k, d := range dates {
+				if (nn+k)%2 == 0 {
+					c.timeParse(absString(d[0], d[1], d[2], 0, 0, 0, 0, nn, p), "boundary-offsets-02..47", (nn+k)%3 == 0)
+				} else {
+					c.timeParse(absString(d[0], d[1], d[2], 23, 59, 59, 9, nn, p), "boundary-offsets-02..47", (nn+k)%3 == 0)
+				}
+			}
+		}
+	}
+}
+
+// locations (audit C20-D3): pdu.Time values whose time.Time is NOT in time.FixedZone("", q*900): time.UTC, time.Local,
+// named fixed zones, a DST location when the zone database is there, time.Now() with its monotonic reading.  Time.String
+// must print what it prints for the same instant in the anonymous fixed zone of the same offset, and Time.From must
+// read it back to the same instant and offset.
+func (c *c20Time) locations() {
+	r, rng := c.r, c.r.Rng
+	locs := []*time.Location{time.UTC, time.Local, time.FixedZone("CEST", 7200), time.FixedZone("-", -3600), time.FixedZone("UTC", 0),
+		time.FixedZone("+0545", 5*3600+45*60)}
+	for _, name := range []string{"Europe/Berlin", "America/New_York", "Australia/Lord_Howe"} {
+		if l, err := time.LoadLocation(name); err == nil {
+			locs = append(locs, l)
+		}
+	}
+	check := func(x time.Time, what string) {
+		_, off := x.Zone()
+		if off%900 != 0 || off < -48*900 || off > 48*900 {
+			return // outside the property (e.g. a half-hour DST zone such as Lord Howe in summer)
+		}
+		t, q := floorDiv((x.Unix()-unix2000)*10+int64(x.Nanosecond()/1e8), 1), off/900
+		if !inTimeDomain(t, q) {
+			return
+		}
+		got := pdu.Time{Time: x}.String()
+		want := opTimeFmt(t, q)
+		show := fmt.Sprintf("timefmt %d %d (%s, %s)", t, q, x.Format(time.RFC3339Nano), what)
+		r.Count("loc/"+what+"/"+show, true, "timefmt/location: "+what)
+		if got != want {
+			r.Fail("time/fmt/location", "Time.String depends on the Location / monotonic reading of the time.Time, not only on instant and offset", show,
+				fmt.Sprintf("%q", got), fmt.Sprintf("%q as for the same instant in time.FixedZone(\"\", offset)", want))
+			return
+		}
+		o := opTimeParse(got)
+		if o.class != "ok" || o.t != t || o.q != q {
+			r.Fail("time/fmt-parse/location", "formatting then parsing an absolute time in a named Location does not return the same instant and offset", show,
+				fmt.Sprintf("string=%q parsed=%s instant=%d offset=%d", got, o.class, o.t, o.q), fmt.Sprintf("instant=%d offset=%d", t, q))
+		}
+	}
+	n := r.N(150, 1500)
+	for i := 0; i < n; i++ {
+		l := int64(rng.U64() % uint64(centuryTenths))
+		base := time.Unix(floorDiv(l, 10)+unix2000, floorMod(l, 10)*1e8+int64(rng.Intn(1e8))) // sub-tenth nanoseconds are truncated
+		for _, loc := range locs {
+			check(base.In(loc), loc.String())
+		}
+	}
+	now := time.Now() // carries a monotonic clock reading
+	check(now, "time.Now() with monotonic reading")
+	check(now.Round(0), "time.Now() without monotonic reading")
+	check(now.UTC(), "time.Now().UTC()")
+	if a, b := (pdu.Time{Time: now}).String(), (pdu.Time{Time: now.Round(0)}).String(); a != b {
+		r.Fail("time/fmt/location", "Time.String differs with and without the monotonic clock reading", "timefmt now", a, b)
+	}
 }
 
 // ---------------------------------------------------------------- receivers that already hold a value
